@@ -251,9 +251,32 @@ func flows() []flow {
 			}
 			return o
 		}},
+		storeOnceRetryFlow("fetch-wrapper-retry-storeonce-ptr-error", 0),
+		storeOnceRetryFlow("fetch-wrapper-retry-storeonce-value-error", 1),
 		dialFlow("dial-first-time-node-faults", true),
 		dialFlow("dial-first-time-server-faults", false),
 	}
+}
+
+// storeOnceRetryFlow: on a storage that refuses to overwrite node records, an
+// honest node repeats its wrapper-flow fetch; the duplicate-record path must
+// answer from what is stored (either form of DuplicateRecordError).
+func storeOnceRetryFlow(name string, dupForm int) flow {
+	n1 := harness.Bytes("nonce-K1", 32)
+	mk := func(w *world) *types.FetchNodeCredentialsRequest {
+		info := harness.Info(w.k["K1"], w.e["K1"], n1)
+		info.WrappedRegistrationInfo = harness.SealRegistrationInfo(w.rw, w.k["K1"].Pkix, n1)
+		return harness.SignedRequest(info, w.k["K1"])
+	}
+	return flow{name, func(w *world, st *harness.MemStore) {
+		st.StoreOnce, st.DupForm = true, dupForm
+		if resp, err := registration.FetchNodeCredentials(harness.Ctx, st, mk(w), nodeenrollment.WithRegistrationWrapper(w.rw)); err != nil || !harness.HasCreds(resp) {
+			panic(fmt.Sprint("first wrapper fetch failed: ", err))
+		}
+	}, func(w *world, st *harness.MemStore) outcome {
+		resp, err := registration.FetchNodeCredentials(harness.Ctx, st, mk(w), nodeenrollment.WithRegistrationWrapper(w.rw))
+		return fetchOutcome(w, st, "K1", n1, resp, err)
+	}}
 }
 
 // dialFlow: an authorized node dials for the first time (fetch handshake,
@@ -545,7 +568,7 @@ func init() {
 	engine.Register(&engine.CheckDef{
 		ID:    "C13",
 		Level: "fault_enumeration",
-		Rule: "19 flows (authorize; fetch: authorized / unauthorized / token / wrapper / re-wrapped; token creation; root rotation: empty / no-op / promote / reinit; node rotation by key id / node id; server certificates by key id / node id; node-side NewNodeCredentials and HandleFetchNodeCredentialsResponse; a first-time Dial through the real listener with faults in the node's resp. the server's storage) x every storage call position of the fault-free run x {generic error, ErrNotFound, context.Canceled}; thorough adds every pair of positions x 9 kind pairs; " +
+		Rule: "21 flows (authorize; fetch: authorized / unauthorized / token / wrapper / re-wrapped; token creation; root rotation: empty / no-op / promote / reinit; node rotation by key id / node id; server certificates by key id / node id; node-side NewNodeCredentials and HandleFetchNodeCredentialsResponse; a repeated wrapper fetch on a store-once storage (both duplicate-error forms); a first-time Dial through the real listener with faults in the node's resp. the server's storage) x every storage call position of the fault-free run x {generic error, ErrNotFound, context.Canceled}; thorough adds every pair of positions x 9 kind pairs; " +
 			"distinct_nontrivial counts fault placements (distinct by construction) in which every injected fault was actually reached by the call",
 		Assumptions: []string{"a failing storage call has no effect (no torn writes: the Storage interface is message-granular)", "a fault that turns a refusal into a durable success is not judged here (the property allows a result that is fully reflected in storage)"},
 		Shards:      func(c *engine.Ctx) int { return 8 },
